@@ -23,7 +23,7 @@ ASSUMPTIONS = [
 ]
 CHUNK = 8
 ALPHA = [b"a", b"\n", b"\xff", b"\x00"]
-PRIMS = ["a", "a b", "", "ü", 0, -1, 1.5, True, False, 1e-15, 0.1 + 0.2]
+PRIMS = ["a", "a b", "", "ü", 0, -1, 1.5, True, False, 1e-15, 0.1 + 0.2, "caf\udce9"]   # the last one: a str as os.listdir() returns it for a non-UTF-8 file name
 
 
 def warmup():
